@@ -8,13 +8,13 @@
 (***************************************************************************)
 EXTENDS PacketProps, Universes, Json
 
-CONSTANTS Part, NParts      \* this TLC process explores declarations i with i % NParts = Part
+CONSTANTS UName, Part, NParts      \* this TLC process explores declarations i with i % NParts = Part
 
 VARIABLES di, dd, dp, input, start, phase, m, p
 vars == <<di, dd, dp, input, start, phase, m, p>>
 
 \* overridden per profile in the .cfg  (U <- U_C06 ...)
-U == U_Smoke
+U == PickU(UName)
 
 USeq == SetToSeq(U)
 ASSUME Part = 0 => PrintT(<<"UNIV", ToJson(USeq)>>)
